@@ -49,8 +49,8 @@ def make_cases(ctx, n_per_type, thorough):
 
     for line in wg.corpus_lines("C02"):
         f = line.split(" ")
-        if f[0] == "MT":
-            add("catalogue", "MT", f[1], wg.parse_ext(f[1]), f[2], int(f[3]), f[4:], cls="corpus")
+        if f[0] in ("MT", "MA"):
+            add("catalogue", f[0], f[1], wg.parse_ext(f[1]), f[2], int(f[3]), f[4:], cls="corpus")
         else:
             # the dynamic API: judged like the inconsistent stream (consistent trees fall through to the specification)
             add("inconsistent", f[0], None, None, f[1], int(f[2]), f[3:], cls="corpus")
@@ -161,11 +161,17 @@ def run(ctx):
         model[i] = o
     # where the marshal model is too slow, the specification alone (SE: spec_enc and encodable at the position after the prefix)
     spec_only = [i for i in big if model[i] is None]
-    ok, out, err = wg.run_each(drv, ["SE %s %d %s" % (cases[i]["bo"], cases[i]["prefix"], mlines[i].split(" ", 4 if cases[i]["op"] == "MT" else 3)[-1]) for i in spec_only], chunk=2)
+    ok, out, err = wg.run_each(drv, ["SE %s %d %s" % (cases[i]["bo"], cases[i]["prefix"], mlines[i].split(" ", 4 if cases[i]["op"] == "MT" else 3)[-1])
+                                     if wg.model_cheap("SE", cases[i]["bo"], cases[i]["toks"]) else "SE le 0 y 0" for i in spec_only], chunk=2)
     if not ok:
         ctx.tie_broken("extracted specification crashed (big stream)", err)
         return
     spec_of = dict(zip(spec_only, out))
+    for i in spec_only:
+        if not wg.model_cheap("SE", cases[i]["bo"], cases[i]["toks"]):
+            # megabytes: judged by the plain encoder wiregen.Layout (compared with the specification on every other value by C03)
+            spec_of[i] = "spec=%s encodable=true" % wg.layout(cases[i]["bo"] == "be", cases[i]["prefix"], fields(impl[i]).get("val", "").split(" "))[0].hex()
+            ctx.count("big:judged-by-python-layout")
 
     classes = {}
     for i, (c, line, mline, li) in enumerate(zip(cases, lines, mlines, impl)):
